@@ -19,6 +19,18 @@ dense / sparse / grid-with-diagonals / planted-potential graphs of 10..40 nodes 
 for the null heuristic and heuristic tables the specification certifies (consistent, zero at the
 target) before use, in several containers and successor orders, plus the Dijkstra family and Yen.
 
+The returned trees: Shortest.From / ShortestAlts.From of every tree (every routine, every source incl.
+the absent id) against the spec's src table; Between / AllBetween / AllBetweenFunc(a, a) on the absent
+id a against the spec's set of legal answers (the trivial path handed out there is the package's own
+node type: its ID() must be a).
+
+D* Lite MoveTo ("moves to n in the world graph"): action MoveTo of DStarLite.tla (n lies 0..2 optimal
+edges ahead, here' = n); table scripts and state-graph behaviours in which the robot moves by MoveTo
+along its own Path() (every epoch MoveTo* Step*) or is moved to any node with the update following at
+once; recorded histories with "dmove" events.  MoveTo after a Step inside one epoch, Path() right after
+a MoveTo off the plan, and a planner created at its goal that is then moved away are separate stages
+with their own signatures (MOVETO_FINDING_STAGES).
+
 D* Lite with zero weights: family "gate" (zero-weight edges into / out of the goal, free two-way
 gates = zero-weight cycles through the goal, costs next to the goal raised and dropped, the edge in
 use raised or removed (+Inf), Step interleaved) in both directions; a call that does not return is
@@ -41,12 +53,23 @@ DSPEC = "path/DStarLite.tla"
 DCFG = "path/DStarLite.cfg"
 
 IDS = "[[1,2,3,4,5,6],[-7,1000000007,0,42,3,9223372036854775807]]"
+IDS10 = "[[1,2,3,4,5,6,7,8,9,10],[-7,1000000007,0,42,3,9223372036854775807,5,-1,77,12]]"
 
 # D* Lite on worlds with zero-weight edges between nodes other than the goal (every zero-weight cycle
 # still passes through the goal).  dynamic.DStarLite documents only "panics on a negative weight";
 # the stage is a separate one with its own signatures so that its findings can be told apart
 # (VERIF_C13_ZERO_INTERIOR=0 switches it off, e.g. to see the exit status of everything else).
 ZERO_INTERIOR_STAGE = os.environ.get("VERIF_C13_ZERO_INTERIOR", "1") != "0"
+
+# dynamic.DStarLite.MoveTo ("moves to n in the world graph").  The claimed domain (signatures as for
+# Step): between two UpdateWorld calls the robot moves by MoveTo* Step* - along its own Path() or to any
+# node when the update follows at once.  Two further domains are allowed by the documentation but are
+# not exact on the unchanged tree; they are separate stages with signatures of their own
+# (VERIF_C13_MOVETO_FINDINGS=0 switches them off, e.g. to see the exit status of everything else):
+#   path:DStarLite:moveto-after-step:*   a MoveTo follows a Step with no UpdateWorld in between
+#   path:DStarLite:moveto-then-path:*    MoveTo to a node off the plan, then Path() at once
+#   path:DStarLite:moveto-from-goal:*    planner created with start = goal, MoveTo away, UpdateWorld, Path()
+MOVETO_FINDING_STAGES = os.environ.get("VERIF_C13_MOVETO_FINDINGS", "1") != "0"
 
 
 def subst(minn, maxn, directed, wcodes, woff, mode="all", seed=1, nsamples=1, shard=0, nshards=1,
@@ -59,11 +82,17 @@ def subst(minn, maxn, directed, wcodes, woff, mode="all", seed=1, nsamples=1, sh
 def run(ctx):
     thorough = ctx.tier == "thorough"
     hb = ctx.build("")
+    # developer aid: VERIF_C13_ONLY=small,dtables,... runs only the named groups of stages
+    only = [x for x in os.environ.get("VERIF_C13_ONLY", "").split(",") if x]
+
+    def want(group):
+        return not only or group in only
 
     # ---- R1: theorems of the specification --------------------------------------------------
-    ctx.tlc(SPEC, CFG, name="R1 theorems: all digraphs <=3 nodes, weights {-1,0,1,2}", workers=2,
-            subst=subst(0, 3, True, "{0,1,2,3}", 1, emit=False, invs="Theorems"))
-    if thorough:
+    if want("r1"):
+        ctx.tlc(SPEC, CFG, name="R1 theorems: all digraphs <=3 nodes, weights {-1,0,1,2}", workers=2,
+                subst=subst(0, 3, True, "{0,1,2,3}", 1, emit=False, invs="Theorems"))
+    if thorough and want("r1"):
         ctx.tlc(SPEC, CFG, name="R1 theorems: all undirected graphs <=4 nodes, weights {-1,0,1,2}", workers=2,
                 subst=subst(0, 4, False, "{0,1,2,3}", 1, emit=False, invs="Theorems"))
         ctx.tlc(SPEC, CFG, name="R1 theorems: 4000 sampled digraphs on 4 nodes, weights {-1,0,1,2}", workers=2,
@@ -99,10 +128,25 @@ def run(ctx):
             ("all digraphs on 4 nodes, weights {0,1} (shard %d of 64 by seed)" % (ctx.seed % 64),
              subst(4, 4, True, "{0,1}", 0, shard=ctx.seed % 64, nshards=64), "weighted", "graph"),
         ]
-    for name, sb, kinds, views in plans:
+    for name, sb, kinds, views in (plans if want("small") else []):
         cases = ctx.gen(SPEC, CFG, subst=sb, name="R2 gen " + name)
         ctx.replay(hb, "path-small", cases, ["kinds=" + kinds, "views=" + views, "ids=" + IDS],
                    name="R2 replay " + name)
+
+    # ---- R2 tie-rich family: lists of alternatives in the all-pairs routines -----------------------
+    # layered graphs on 7..9 nodes in which a source has 2..6 equally good routes to two targets sharing a
+    # hub (ShortestPath.tla, Mode = "ties": the whole parameter space, 720 graphs); the spec prints the SET
+    # of shortest paths of every pair; dense matrices in four node orders printed by the spec and map-based
+    # graphs in two id bindings; AllBetween / AllBetweenFunc / AllTo must equal the set, every Between / To
+    # path must be a member, weights exact.  Signatures path:ties:<routine>:<what>.
+    if want("ties"):
+        cases = ctx.gen(SPEC, CFG, subst=subst(0, 0, True, "{1,2,5}", 0, mode="ties"),
+                        name="R2 gen tie-rich layered family (source -> 2..3 middles -> hub -> 2 targets, 1..2 side routes of weight "
+                             "absent / tied / heavier, tied middle->target shortcuts), 7..9 nodes, weights {1,2,5}")
+        ctx.replay(hb, "path-small", cases,
+                   ["kinds=weighted,matrix", "views=" + ("graph,traverse" if thorough else "graph"), "ids=" + IDS10, "tag=ties:",
+                    "reps=%d" % (25 if thorough else 8)],
+                   name="R2 replay tie-rich layered family (all-paths sets, 4 node orders in dense matrices, 2 id bindings in map graphs)")
 
     # ---- R3: random graphs to 60 nodes through the real routines, judged by TLC ---------------
     ngraphs = 120 if thorough else 28
@@ -110,7 +154,7 @@ def run(ctx):
         ("no-zero-cycles", "sparse-pos,dense-ties,disconnected,neg-dag,neg-cycle-far,undirected-pos,neg-potential"),
         ("zero-cycles", "zero-cycles,undirected-zero,neg-mixed"),
     ]
-    for gname, fams in groups:
+    for gname, fams in (groups if want("rand") else []):
         tr = os.path.join(ctx.work, "ptrace-%s.ndjson" % gname)
         summ = ctx.record(hb, "path-rand", tr, ["graphs=%d" % ngraphs, "maxn=60", "fams=" + fams],
                           name="R3 record %s" % gname)
@@ -134,49 +178,53 @@ def run(ctx):
             ctx.violation("path:trace-rejected:%s" % gname, st2.get("detail", "")[:600],
                           {"trace": dst, "spec": TSPEC, "cfg": dict(KNOWNCUT="TRUE")})
 
-    # ---- R3 "wide": large open queues, many decrease-key operations ------------------------------
-    # every ordered pair (s, t) x heuristics (null, nil, spec-certified tables as function and as the
-    # graph's HeuristicCost) x containers / successor orders, 10..40 nodes, weights 1..20
-    tr = os.path.join(ctx.work, "ptrace-wide.ndjson")
-    summ = ctx.record(hb, "path-astar", tr, ["graphs=%d" % (80 if thorough else 24), "minn=10", "maxn=40", "views=3"],
-                      name="R3 record wide (A* all pairs, Dijkstra family, Yen; 10..40 nodes, weights 1..20)")
-    ok, st = ctx.validate(TSPEC, TCFG, tr, subst=dict(KNOWNCUT="FALSE"), name="R3 validate wide")
-    if ok:
-        ctx.traces += summ.get("traces", 0)
-        # Yen completeness on the same recorded graphs: TLC enumerates every simple path within the limit the
-        # answer commits to (YenSearch.tla); one that was not returned is a violation
-        yok, yst = ctx.validate(YSPEC, YCFG, tr, subst=dict(UNBOUNDED="FALSE", SKIP=""), workers=2,
-                                accept_re=r"YEN-SEARCH-INSTANCES (\d+)",
-                                name="R3 Yen omits no cheaper path: exhaustive enumeration of simple paths within the limit (wide)")
-        if yok:
-            yst["yen_answers_proved_complete"] = yst.get("events_consumed", 0)
+    def wide_stage():
+        # ---- R3 "wide": large open queues, many decrease-key operations ------------------------------
+        # every ordered pair (s, t) x heuristics (null, nil, spec-certified tables as function and as the
+        # graph's HeuristicCost) x containers / successor orders, 10..40 nodes, weights 1..20
+        tr = os.path.join(ctx.work, "ptrace-wide.ndjson")
+        summ = ctx.record(hb, "path-astar", tr, ["graphs=%d" % (80 if thorough else 24), "minn=10", "maxn=40", "views=3"],
+                          name="R3 record wide (A* all pairs, Dijkstra family, Yen; 10..40 nodes, weights 1..20)")
+        ok, st = ctx.validate(TSPEC, TCFG, tr, subst=dict(KNOWNCUT="FALSE"), name="R3 validate wide")
+        if ok:
+            ctx.traces += summ.get("traces", 0)
+            # Yen completeness on the same recorded graphs: TLC enumerates every simple path within the limit the
+            # answer commits to (YenSearch.tla); one that was not returned is a violation
+            yok, yst = ctx.validate(YSPEC, YCFG, tr, subst=dict(UNBOUNDED="FALSE", SKIP=""), workers=2,
+                                    accept_re=r"YEN-SEARCH-INSTANCES (\d+)",
+                                    name="R3 Yen omits no cheaper path: exhaustive enumeration of simple paths within the limit (wide)")
+            if yok:
+                yst["yen_answers_proved_complete"] = yst.get("events_consumed", 0)
+            else:
+                detail = yst.get("detail", "")
+                inst = re.findall(r"/\\ inst = (\d+)", detail)
+                pth = re.findall(r"/\\ path = <<([\d,\s]*)>>", detail)
+                keep = os.path.join(ctx.work, "..", "..", "replays", "C13")
+                os.makedirs(keep, exist_ok=True)
+                dst = os.path.abspath(os.path.join(keep, "ptrace-wide-yen-seed%d.ndjson" % ctx.seed))
+                shutil.copy(tr, dst)
+                what = "event %s of the trace: the simple path <<%s>> is within the limit of the answer but was not returned" % (
+                    inst[-1] if inst else "?", pth[-1].replace("\n", " ") if pth else "?")
+                if inst:
+                    try:
+                        yev = json.loads(open(tr).read().split("\n")[int(inst[-1]) - 1])
+                        what += " (YenKShortestPaths k=%s cost=%s s=%s t=%s returned %s)" % (
+                            yev["k"], "+Inf" if yev["c"] == 99 else yev["c"], yev["s"], yev["t"], yev["ps"])
+                    except (ValueError, IndexError, KeyError):
+                        pass
+                ctx.violation("path:YenKShortestPaths:missing-cheaper-path", what + " | " + detail[-300:],
+                              {"trace": dst, "spec": YSPEC, "cfgfile": YCFG, "cfg": dict(UNBOUNDED="FALSE", SKIP=""),
+                               "accept_re": r"YEN-SEARCH-INSTANCES (\d+)"})
         else:
-            detail = yst.get("detail", "")
-            inst = re.findall(r"/\\ inst = (\d+)", detail)
-            pth = re.findall(r"/\\ path = <<([\d,\s]*)>>", detail)
             keep = os.path.join(ctx.work, "..", "..", "replays", "C13")
             os.makedirs(keep, exist_ok=True)
-            dst = os.path.abspath(os.path.join(keep, "ptrace-wide-yen-seed%d.ndjson" % ctx.seed))
+            dst = os.path.abspath(os.path.join(keep, "ptrace-wide-seed%d.ndjson" % ctx.seed))
             shutil.copy(tr, dst)
-            what = "event %s of the trace: the simple path <<%s>> is within the limit of the answer but was not returned" % (
-                inst[-1] if inst else "?", pth[-1].replace("\n", " ") if pth else "?")
-            if inst:
-                try:
-                    yev = json.loads(open(tr).read().split("\n")[int(inst[-1]) - 1])
-                    what += " (YenKShortestPaths k=%s cost=%s s=%s t=%s returned %s)" % (
-                        yev["k"], "+Inf" if yev["c"] == 99 else yev["c"], yev["s"], yev["t"], yev["ps"])
-                except (ValueError, IndexError, KeyError):
-                    pass
-            ctx.violation("path:YenKShortestPaths:missing-cheaper-path", what + " | " + detail[-300:],
-                          {"trace": dst, "spec": YSPEC, "cfgfile": YCFG, "cfg": dict(UNBOUNDED="FALSE", SKIP=""),
-                           "accept_re": r"YEN-SEARCH-INSTANCES (\d+)"})
-    else:
-        keep = os.path.join(ctx.work, "..", "..", "replays", "C13")
-        os.makedirs(keep, exist_ok=True)
-        dst = os.path.abspath(os.path.join(keep, "ptrace-wide-seed%d.ndjson" % ctx.seed))
-        shutil.copy(tr, dst)
-        ctx.violation("path:trace-rejected:wide", st.get("detail", "")[:600],
-                      {"trace": dst, "spec": TSPEC, "cfg": dict(KNOWNCUT="FALSE")})
+            ctx.violation("path:trace-rejected:wide", st.get("detail", "")[:600],
+                          {"trace": dst, "spec": TSPEC, "cfg": dict(KNOWNCUT="FALSE")})
+
+    if want("wide"):
+        wide_stage()
 
     # ---- D* Lite ----------------------------------------------------------------------------
     # spec->code, tables role: for pseudo-random worlds TLC prints the distance / optimal-edge tables of
@@ -184,11 +232,11 @@ def run(ctx):
     # harness runs plan -> Step k (0..3) -> UpdateWorld(change) -> Path -> Steps to the goal for every
     # (start, goal, k, change) and judges by table look-up.
     def dsub(family, n, gr, gc, heur, mode, seed, nsamples, rounds=0, emit=True,
-             invs="TypeOK HeuristicOK OptProgress EmitTables"):
+             invs="TypeOK HeuristicOK OptProgress EmitTables", moves="step"):
         return dict(FAMILY=family, N=n, GR=gr, GC=gc, DELTA=2, HEUR=heur, MODE=mode, SEED=seed, NSAMPLES=nsamples,
-                    ROUNDS=rounds, EMIT="TRUE" if emit else "FALSE", INVS=invs)
+                    ROUNDS=rounds, MOVES=moves, EMIT="TRUE" if emit else "FALSE", INVS=invs)
 
-    if thorough:
+    if thorough and want("dr1"):
         ctx.tlc(DSPEC, DCFG, name="R1 DStarLite: heuristic consistent, optimal edges progress, for every single/double "
                 "change of 40 4-node worlds", workers=2,
                 subst=dsub("small", 4, 1, 1, "base", "tables", ctx.seed, 45, emit=False,
@@ -198,20 +246,32 @@ def run(ctx):
                            invs="TypeOK HeuristicOK OptProgress AllChangesOK"))
     # quick: the table worlds are fixed (exhaustive over start/goal/steps/changes, cached); thorough: by seed
     tseed = ctx.seed if thorough else 1
-    tplans = [("2x3 grids, base-world-distance heuristic", dsub("grid", 0, 2, 3, "base", "tables", tseed, 100 if thorough else 20)),
-              ("2x4 grids, Manhattan x min-cost heuristic", dsub("grid", 0, 2, 4, "manhattan", "tables", tseed, 20 if thorough else 4))]
+    # (name, cfg, worlds used by the MoveTo scripts: 0 = all)
+    tplans = [("2x3 grids, base-world-distance heuristic", dsub("grid", 0, 2, 3, "base", "tables", tseed, 100 if thorough else 20), 40 if thorough else 10),
+              ("2x4 grids, Manhattan x min-cost heuristic", dsub("grid", 0, 2, 4, "manhattan", "tables", tseed, 20 if thorough else 4), 8 if thorough else 2)]
     if thorough:
-        tplans += [("3x3 grids, base-world-distance heuristic", dsub("grid", 0, 3, 3, "base", "tables", tseed, 12)),
-                   ("4-node worlds, base-world-distance heuristic", dsub("small", 4, 1, 1, "base", "tables", tseed, 150)),
-                   ("5-node worlds, base-world-distance heuristic", dsub("small", 5, 1, 1, "base", "tables", tseed, 20))]
-    for name, sb in tplans:
+        tplans += [("3x3 grids, base-world-distance heuristic", dsub("grid", 0, 3, 3, "base", "tables", tseed, 12), 3),
+                   ("4-node worlds, base-world-distance heuristic", dsub("small", 4, 1, 1, "base", "tables", tseed, 150), 60),
+                   ("5-node worlds, base-world-distance heuristic", dsub("small", 5, 1, 1, "base", "tables", tseed, 20), 10)]
+    for name, sb, mw in (tplans if want("dtables") else []):
         cases = ctx.gen(DSPEC, DCFG, subst=sb, name="R2 gen D* Lite tables: " + name)
         ctx.replay(hb, "path-dstar-tables", cases, ["heur=spec"], name="R2 replay D* Lite scripts: " + name)
+        # MoveTo: the same tables, scripts in which the robot moves by MoveTo (along its Path(), 0..2 edges
+        # ahead, or to any node with the update following at once), every epoch MoveTo* Step*
+        ctx.replay(hb, "path-dstar-tables", cases, ["heur=spec", "moves=A", "worlds=%d" % mw, "limitms=5000"],
+                   name="R2 replay D* Lite scripts with MoveTo (MoveTo* Step* between updates): " + name)
+        if MOVETO_FINDING_STAGES and name.startswith("2x3"):
+            ctx.replay(hb, "path-dstar-tables", cases, ["heur=spec", "moves=B", "worlds=%d" % mw, "limitms=5000"],
+                       name="R2 replay D* Lite scripts, MoveTo after Step inside one epoch: " + name)
+            ctx.replay(hb, "path-dstar-tables", cases, ["heur=spec", "moves=C", "worlds=3", "limitms=3000"],
+                       name="R2 replay D* Lite scripts, MoveTo to any node then Path() at once: " + name)
+            ctx.replay(hb, "path-dstar-tables", cases, ["heur=spec", "moves=D", "worlds=3", "limitms=3000"],
+                       name="R2 replay D* Lite scripts, planner created at its goal, MoveTo away, UpdateWorld: " + name)
 
     # zero-weight edges at the goal (family "gate"): theorems of the family, then every (start, k steps,
     # single / double change) towards the designated goal, with the spec's heuristic and with the null one
     ginv = "TypeOK HeuristicOK GateClassOK OptReach"
-    if thorough:
+    if thorough and want("dr1"):
         ctx.tlc(DSPEC, DCFG, name="R1 DStarLite gate family: class, heuristic consistent, optimal edges reach the goal, for every "
                 "single/double change of 60 4-node worlds", workers=2,
                 subst=dsub("gate", 4, 1, 1, "base", "tables", ctx.seed, 60, emit=False, invs=ginv + " AllChangesReach"))
@@ -219,11 +279,13 @@ def run(ctx):
                                                                  invs=ginv + " EmitTables")),
               ("5-node worlds with free gates at the goal", dsub("gate", 5, 1, 1, "base", "tables", tseed, 80 if thorough else 20,
                                                                  invs=ginv + " EmitTables"))]
-    for name, sb in gplans:
+    for name, sb in (gplans if want("dgate") else []):
         cases = ctx.gen(DSPEC, DCFG, subst=sb, name="R2 gen D* Lite tables: " + name)
         for heur in ("spec", "null"):
             ctx.replay(hb, "path-dstar-tables", cases, ["heur=" + heur, "limitms=3000"],
                        name="R2 replay D* Lite scripts (%s heuristic): %s" % (heur, name))
+            ctx.replay(hb, "path-dstar-tables", cases, ["heur=" + heur, "moves=A", "limitms=3000"],
+                       name="R2 replay D* Lite scripts with MoveTo (%s heuristic): %s" % (heur, name))
 
     # spec->code, machine role: TLC explores every behaviour of the world/robot state machine with
     # deliberate updates (raise an edge on the optimal plan, lower one off the plan); the planner's run
@@ -235,9 +297,22 @@ def run(ctx):
                                                                   rounds=3, invs="TypeOK HeuristicOK OptProgress")),
                    ("4x4 grids, base-world-distance heuristic", dsub("grid", 0, 4, 4, "base", "machine", ctx.seed, 150,
                                                                  rounds=5, invs="TypeOK HeuristicOK OptProgress"))]
-    for name, sb in mplans:
+    mplans = [(name, sb, []) for name, sb in mplans]
+    # the state machine with the action MoveTo: every epoch MoveTo* Step* ("move"); a MoveTo may follow a
+    # Step ("mixed", a stage with its own signature)
+    minv = "TypeOK HeuristicOK OptProgress AheadOK"
+    mplans.append(("2x5 grids, base-world-distance heuristic, MoveTo* Step* between updates",
+                   dsub("grid", 0, 2, 5, "base", "machine", ctx.seed, 800 if thorough else 60, rounds=4, invs=minv, moves="move"), []))
+    if thorough:
+        mplans.append(("3x3 grids, Manhattan x min-cost heuristic, MoveTo* Step* between updates",
+                       dsub("grid", 0, 3, 3, "manhattan", "machine", ctx.seed, 400, rounds=3, invs=minv, moves="move"), []))
+    if MOVETO_FINDING_STAGES:
+        mplans.append(("2x5 grids, base-world-distance heuristic, Step and MoveTo in any order",
+                       dsub("grid", 0, 2, 5, "base", "machine", ctx.seed, 800 if thorough else 60, rounds=4, invs=minv, moves="mixed"),
+                       ["dom=moveto-after-step:"]))
+    for name, sb, margs in (mplans if want("dmachine") else []):
         cases = ctx.gen(DSPEC, DCFG, subst=sb, name="R2 gen D* Lite state graph: " + name)
-        ctx.replay(hb, "path-dstar-machine", cases, ["heur=spec"], name="R2 replay D* Lite behaviours: " + name)
+        ctx.replay(hb, "path-dstar-machine", cases, ["heur=spec"] + margs, name="R2 replay D* Lite behaviours: " + name)
 
     # code->spec: recorded histories judged by TLC (ShortestPathTrace.tla): random worlds with the null
     # heuristic, and deliberate histories on grids with heuristics whose tables TLC validates
@@ -251,7 +326,7 @@ def run(ctx):
     for part in range(2 if thorough else 1):
         drecs.append(("deliberate grid histories, spec-validated heuristics (part %d)" % part, "path-dstar-grid",
                       ["hist=%d" % (6000 if thorough else 1000), "rounds=4", "part=%d" % part], "dstar-grid%d" % part))
-    for name, area, rargs, tag in drecs:
+    for name, area, rargs, tag in (drecs if want("drec") else []):
         tr = os.path.join(ctx.work, tag + ".ndjson")
         summ = ctx.record(hb, area, tr, rargs, name="R3 record D* Lite: " + name)
         ok, st = ctx.validate(TSPEC, TCFG, tr, subst=dict(KNOWNCUT="FALSE"), name="R3 validate D* Lite: " + name)
@@ -275,8 +350,8 @@ def run(ctx):
         rule="R2: one case = one graph with the complete expected answers of all routines, replayed on every "
              "container kind x id binding x view; non-trivial = the graph has at least one edge. "
              "D* Lite R2: one case = one script (start, goal, k steps, one single or double cost change, steps to "
-             "the goal) on a spec-printed world, or one behaviour of the spec's state graph; non-trivial = at least one "
-             "Step before the update. R3: one trace = one random graph with the logged answers of all routines, or one "
+             "the goal; with MoveTo: the moves are Step / MoveTo letters) on a spec-printed world, or one behaviour of the "
+             "spec's state graph; non-trivial = at least one move before the update. R3: one trace = one random graph with the logged answers of all routines, or one "
              "D* Lite history (Step / UpdateWorld rounds); R3 wide: one trace = one graph of 10..40 nodes with the answers "
              "of A* for every ordered pair under every heuristic and view (astar-calls in the stage), the Dijkstra family and Yen.",
         exhaustive=True)
